@@ -334,6 +334,102 @@ func (in *Interp) strToLower(s *Str) *Str {
 	return normStr(tf, alts)
 }
 
+// strTrimSet: strings.TrimSpace / Trim / TrimLeft / TrimRight with an ASCII cut set over strings that may have symbolic
+// bytes: one alternative per pair of cut positions.  Non-ASCII symbolic bytes are outside the model (the real
+// functions decode runes there).
+func (in *Interp) strTrimSet(s *Str, set string, left, right bool, what string) *Str {
+	tf := in.tf
+	if !isASCII(set) {
+		in.unsupported("%s with a non-ASCII cut set", what)
+	}
+	inSet := func(b *Term) *Term {
+		r := tf.F
+		for i := 0; i < len(set); i++ {
+			r = tf.Or(r, tf.Eq(b, tf.BV(8, uint64(set[i]))))
+		}
+		return r
+	}
+	var alts []SAlt
+	for i := range s.Alts {
+		a := &s.Alts[i]
+		if a.Sym == nil {
+			var t string
+			switch {
+			case what == "strings.TrimSpace":
+				t = strings.TrimSpace(a.S)
+			case left && right:
+				t = strings.Trim(a.S, set)
+			case left:
+				t = strings.TrimLeft(a.S, set)
+			default:
+				t = strings.TrimRight(a.S, set)
+			}
+			alts = append(alts, SAlt{G: a.G, S: t})
+			continue
+		}
+		n := len(a.Sym)
+		member := make([]*Term, n)
+		for k, b := range a.Sym {
+			if !b.IsConst() {
+				if !in.branch(tf.Or(tf.Not(a.G), tf.Cmp(OpUlt, b, tf.BV(8, 0x80)))) {
+					in.unsupported("%s on non-ASCII symbolic byte", what)
+				}
+			} else if b.Val >= 0x80 {
+				in.unsupported("%s on a string with symbolic bytes and non-ASCII bytes", what)
+			}
+			member[k] = inSet(b)
+		}
+		// cut positions lo <= hi: bytes before lo are in the set, byte lo is not; bytes from hi on are in the set, byte hi-1 is not
+		for lo := 0; lo <= n; lo++ {
+			if lo > 0 && !left {
+				break
+			}
+			gl := tf.T
+			for k := 0; k < lo; k++ {
+				gl = tf.And(gl, member[k])
+			}
+			if lo < n && left {
+				gl = tf.And(gl, tf.Not(member[lo]))
+			}
+			if gl.IsFalse() {
+				continue
+			}
+			if lo == n {
+				alts = append(alts, SAlt{G: tf.And(a.G, gl), S: ""})
+				continue
+			}
+			for hi := n; hi > lo; hi-- {
+				if hi < n && !right {
+					break
+				}
+				gr := tf.T
+				for k := hi; k < n; k++ {
+					gr = tf.And(gr, member[k])
+				}
+				if right {
+					gr = tf.And(gr, tf.Not(member[hi-1]))
+				}
+				g := tf.AndN(a.G, gl, gr)
+				if g.IsFalse() {
+					continue
+				}
+				alts = append(alts, mkAlt(g, a.Sym[lo:hi]))
+			}
+			if !left && right {
+				// everything is in the set
+				all := tf.T
+				for k := 0; k < n; k++ {
+					all = tf.And(all, member[k])
+				}
+				if g := tf.And(a.G, all); !g.IsFalse() {
+					alts = append(alts, SAlt{G: g, S: ""})
+				}
+			}
+		}
+	}
+	return normStr(tf, alts)
+}
+
 // mapConc applies f to every alternative; all must be concrete.
 func (in *Interp) mapConc(s *Str, what string, f func(string) string) *Str {
 	if !s.AllConc() {
